@@ -135,33 +135,44 @@ pub fn default_header(cart_type: u8, rom_code: u8, ram_code: u8) -> Vec<u8> {
 /// cart_type, rom_code, ram_code, rom_fill (0 zeros, 1 bank ids, >=2 pattern seed).
 /// Blobs "rom:<hexoff>" are patched last; if a patch touches the header the
 /// checksum is NOT recomputed when param raw_header != 0.
-pub fn write_image(case: &Case, file: &MemFile) {
+/// Returns the byte ranges written (so a pooled file can be wiped before reuse).
+pub fn write_image(case: &Case, file: &MemFile) -> Vec<(usize, usize)> {
+    let mut dirty: Vec<(usize, usize)> = Vec::new();
     let cart_type = case.get("cart_type") as u8;
     let rom_code = case.get("rom_code") as u8;
     let ram_code = case.get("ram_code") as u8;
     let size = rom_banks(rom_code) * 0x4000;
     let size = if case.get("file_len") > 0 { case.get("file_len") as usize } else { size };
-    file.set_len(size);
+    if file.len() != size {
+        file.set_len(size);
+    }
     let fill = case.get("rom_fill") as u64;
     if fill == 1 {
         for b in 0..(size / 0x4000) {
             let id = [(b & 0xff) as u8, (b >> 8) as u8];
-            file.pwrite(b * 0x4000 + 0x0002, &id);
-            file.pwrite(b * 0x4000 + 0x1ffe, &id);
-            file.pwrite(b * 0x4000 + 0x3ffe, &id);
+            // every bank starts with: NOP; LD BC,<bank id>; RET  (so executing at 0x4000 reports the visible bank)
+            file.pwrite(b * 0x4000, &[0x00, 0x01, id[0], id[1], 0xc9]);
+            dirty.push((b * 0x4000, 5));
+            for off in [0x1ffe, 0x3ffe] {
+                file.pwrite(b * 0x4000 + off, &id);
+                dirty.push((b * 0x4000 + off, 2));
+            }
         }
     } else if fill >= 2 && size <= 0x40000 {
         let data = fill_pattern(fill, size);
         file.pwrite(0, &data);
+        dirty.push((0, size));
     }
     if size >= 0x150 {
         file.pwrite(0x100, &default_header(cart_type, rom_code, ram_code));
+        dirty.push((0x100, 0x50));
     }
     let mut touched_header = false;
     for (k, v) in &case.blobs {
         if let Some(off) = parse_patch_key(k) {
             if off + v.len() <= size {
                 file.pwrite(off, v);
+                dirty.push((off, v.len()));
                 if off < 0x150 && off + v.len() > 0x134 {
                     touched_header = true;
                 }
@@ -173,10 +184,47 @@ pub fn write_image(case: &Case, file: &MemFile) {
         unsafe { libc::pread(file.fd, h.as_mut_ptr() as *mut _, 0x19, 0x134) };
         file.pwrite(0x14d, &[header_checksum(&h)]);
     }
+    dirty
 }
 
-pub fn image_for(case: &Case) -> MemFile {
-    let f = MemFile::new("gbsim-rom");
-    write_image(case, &f);
-    f
+/// Handle to the image of the current case. The file is pooled per thread and
+/// per size: it is wiped and rewritten by the next `image_for` call, so only
+/// one case's image is alive at a time (which is how scenarios use it).
+pub struct Image {
+    pub fd: i32,
+}
+
+thread_local! {
+    static POOL: std::cell::RefCell<Vec<(usize, MemFile, Vec<(usize, usize)>)>> = std::cell::RefCell::new(Vec::new());
+}
+
+pub fn image_for(case: &Case) -> Image {
+    let rom_code = case.get("rom_code") as u8;
+    let size = rom_banks(rom_code) * 0x4000;
+    let size = if case.get("file_len") > 0 { case.get("file_len") as usize } else { size };
+    POOL.with(|pool| {
+        let mut pool = pool.borrow_mut();
+        let idx = match pool.iter().position(|e| e.0 == size) {
+            Some(i) => i,
+            None => {
+                let f = MemFile::new("gbsim-rom");
+                f.set_len(size);
+                pool.push((size, f, Vec::new()));
+                pool.len() - 1
+            }
+        };
+        let entry = &mut pool[idx];
+        // wipe what the previous case wrote
+        let zeros = vec![0u8; 0x10000];
+        for &(off, len) in entry.2.iter() {
+            let mut done = 0;
+            while done < len {
+                let n = (len - done).min(zeros.len());
+                entry.1.pwrite(off + done, &zeros[..n]);
+                done += n;
+            }
+        }
+        entry.2 = write_image(case, &entry.1);
+        Image { fd: entry.1.fd }
+    })
 }
